@@ -33,7 +33,9 @@ def main():
     meta = {"property": args.prop, "candidate": name, "ran": []}
     try:
         os.makedirs(os.path.join(wt, "_seed"), exist_ok=True)
-        shutil.copy(demo, os.path.join(wt, "_seed", f"demo{args.k}.py"))
+        for f in os.listdir(args.src):  # demos may come with helper modules
+            if f.endswith(".py"):
+                shutil.copy(os.path.join(args.src, f), os.path.join(wt, "_seed", f))
         r0 = sh(f"cd {wt} && timeout 900 /venv/bin/python _seed/demo{args.k}.py", timeout=1000)
         meta["ran"].append({"cmd": "demo without the change", "exit": r0.returncode})
         a = sh(f"git -C {wt} apply {patch}")
@@ -65,6 +67,9 @@ def main():
         os.makedirs(dst, exist_ok=True)
         shutil.copy(patch, os.path.join(dst, "patch.diff"))
         shutil.copy(demo, os.path.join(dst, "demo.py"))
+        for f in os.listdir(args.src):
+            if f.endswith(".py") and not f.startswith("demo"):
+                shutil.copy(os.path.join(args.src, f), os.path.join(dst, f))
         notes = os.path.join(args.src, "notes.md")
         if os.path.exists(notes):
             shutil.copy(notes, os.path.join(dst, "notes.md"))
